@@ -129,7 +129,7 @@ export function makeCases(ctx, n, fixed = null) {
  *  is printed whenever the finding still reproduces, and STALE-FINDING is noted when it no longer does. */
 function runFindingWitnesses(ctx) {
   const { ge, report } = ctx
-  const src = '<x wx:for="{{arr}}" model:title="{{item}}"/>'
+  const src = '<x wx:for="{{arr}}" wx:key="*this" model:title="{{item}}"/>'
   const res = compileMany([{ id: 0, files: [['p', src]], scripts: [] }]).get(0)
   const mk = () => ({ arr: ['a', 'b', 'c'] })
   const live = instantiate(ge, res.groups, 'p', mk(), { keepEvents: false })
